@@ -257,6 +257,9 @@ func TestScriptedValues(t *testing.T) {
 	}
 	rec := ev.New(t, prop, "scripted-random-values", "identifier.New with crypto/rand.Reader replaced by a scripted reader: every value of the structured set (k leading zero bytes x first byte x fill, neighbours, around powers of 62 and 256) x prefixes; non-trivial: the base-62 body needs left padding (value < 62^42)")
 	rec.SetExhaustive("k = 0..32 leading zero bytes x first byte {01,3d,3e,80,ff} x fill {00,01,ff} with v-1, v+1; 62^e + {-2..2}, e = 0..43; 256^e + {-2..2}; 2^256-1; x 6 valid prefixes; 22 invalid prefixes")
+	if msg := alphabetProblem(); msg != "" {
+		ev.FailTB(t, rec, &Case{Kind: "alphabet", Text: alphabet62}, "%s: %q", msg, alphabet62)
+	}
 	values, classes := structuredValues()
 	var nts uint64
 	for _, prefix := range validPrefixes {
